@@ -822,12 +822,12 @@ def run(eng, rep):
     rep.explain('Also decided: NaN replacement visits every element of nested containers (C20-2b); table rows are uniquely labelled (C20-5b); no raw callback return value reaches a result field by plain copies (C20-6); integer Model arrays keep an integer dtype at every re-binding, helpers included (dtype inference, C20-7).')
     rep.not_decided += ["what pandas.DataFrame.to_dict/from_dict and json do to index keys and NumPy scalars (library semantics)",
                         "bit-exact equality of reloaded arrays"]
-    rule_field_agreement(eng, rep)
+    rep.guarded(rule_field_agreement, eng, rep)
     forms = rule_plain_data(eng, rep)
     safe = rule_none_back_to_nan(eng, rep, forms)
-    rule_str_never_formats_none(eng, rep, safe=safe)
-    rule_diag_columns_scalar(eng, rep)
-    rule_no_raw_user_values_in_result(eng, rep)
-    rule_integer_arrays_stay_integer(eng, rep)
-    rule_nan_replacement_is_total(eng, rep)
-    rule_table_rows_uniquely_labelled(eng, rep)
+    rep.guarded(rule_str_never_formats_none, eng, rep, safe=safe)
+    rep.guarded(rule_diag_columns_scalar, eng, rep)
+    rep.guarded(rule_no_raw_user_values_in_result, eng, rep)
+    rep.guarded(rule_integer_arrays_stay_integer, eng, rep)
+    rep.guarded(rule_nan_replacement_is_total, eng, rep)
+    rep.guarded(rule_table_rows_uniquely_labelled, eng, rep)
